@@ -466,10 +466,13 @@ def predefined_world(currencies=()):
 
 
 def add_money(w, currencies):
-    """currencies: {code: minor units}"""
+    """currencies: {code: minor units (int) or smallest fraction
+    (Fraction, for currencies declared with Money.new_unit)}"""
     w.types["Money"] = TypeM("Money", [], {"Money": 1}, False, None, None)
     for code, minor in currencies.items():
+        q = minor if isinstance(minor, Fraction) \
+            else Fraction(1, 10 ** minor)
         w.units[code] = UnitM(code, "Money", 1, {code: 1}, "plain",
-                              quantum=Fraction(1, 10 ** minor))
+                              quantum=q)
         w.elem_type[code] = "Money"
     return w
